@@ -26,6 +26,99 @@ from dataclasses import dataclass, field
 from .pyfacts import AnalysisError, src
 
 
+_SWAP_CMP = {ast.Gt: ast.Lt, ast.GtE: ast.LtE}
+_NEG_CMP = {ast.NotEq: ast.Eq, ast.NotIn: ast.In, ast.IsNot: ast.Is}
+
+
+def _class_tuple(node):
+    """`A | B | C` / `(A, B)` / `A`  ->  sorted list of class texts."""
+    if isinstance(node, ast.BinOp) and isinstance(node.op, ast.BitOr):
+        return _class_tuple(node.left) + _class_tuple(node.right)
+    if isinstance(node, ast.Tuple):
+        out = []
+        for e in node.elts:
+            out += _class_tuple(e)
+        return out
+    return [src(node)]
+
+
+def norm_test(node):
+    """Canonical spelling of a primitive branch test: (text, flip).
+
+    Equivalent spellings a refactoring may swap get one text; `flip` says that the canonical test is the negation
+    of the written one:  not X -> X (flip);  a != b -> a == b (flip), operands of == / is in text order;
+    x not in S -> x in S (flip);  a > b -> b < a;  a >= b -> b <= a;  isinstance(x, A | B) -> isinstance(x, (A, B))
+    with the classes in text order.  Everything else keeps its own text."""
+    flip = False
+    while isinstance(node, ast.UnaryOp) and isinstance(node.op, ast.Not):
+        node, flip = node.operand, not flip
+    if isinstance(node, ast.Compare) and len(node.ops) == 1:
+        op, left, right = type(node.ops[0]), node.left, node.comparators[0]
+        if op in _NEG_CMP:
+            op, flip = _NEG_CMP[op], not flip
+        if op in _SWAP_CMP:
+            op, left, right = _SWAP_CMP[op], right, left
+        lt, rt = src(left), src(right)
+        if op in (ast.Eq, ast.Is) and rt < lt:
+            lt, rt = rt, lt
+        sym = {ast.Eq: '==', ast.Is: 'is', ast.In: 'in', ast.Lt: '<', ast.LtE: '<='}.get(op)
+        if sym:
+            return f'{lt} {sym} {rt}', flip
+    if isinstance(node, ast.Call) and src(node.func) == 'isinstance' and len(node.args) == 2 and not node.keywords:
+        classes = sorted(set(_class_tuple(node.args[1])))
+        cl = classes[0] if len(classes) == 1 else '(' + ', '.join(classes) + ')'
+        return f'isinstance({src(node.args[0])}, {cl})', flip
+    return src(node), flip
+
+
+@functools.lru_cache(maxsize=4096)
+def norm_text(text):
+    """norm_test for a test given as source text (used by rules to spell the test they ask about)."""
+    try:
+        node = ast.parse(text, mode='eval').body
+    except SyntaxError:
+        return text, False
+    return norm_test(node)
+
+
+class Conds(dict):
+    """{canonical test text: truth} of one path; lookups accept any equivalent spelling of the test."""
+
+    def __init__(self, events=()):
+        super().__init__()
+        for e in events:
+            if e.kind == 'cond':
+                super().__setitem__(e.text, e.truth)
+
+    def get(self, text, default=None):
+        t, flip = norm_text(text)
+        if dict.__contains__(self, t):
+            v = dict.__getitem__(self, t)
+            return (not v) if flip else v
+        return default
+
+    def __getitem__(self, text):
+        t, flip = norm_text(text)
+        v = dict.__getitem__(self, t)
+        return (not v) if flip else v
+
+    def __contains__(self, text):
+        return dict.__contains__(self, norm_text(text)[0])
+
+    def pop(self, text, *default):
+        return dict.pop(self, norm_text(text)[0], *default)
+
+
+def cond_is(e, text):
+    """For a cond event: the truth it assigns to the test spelled `text` (None if it is about another test)."""
+    if e.kind != 'cond':
+        return None
+    t, flip = norm_text(text)
+    if e.text != t:
+        return None
+    return (not e.truth) if flip else e.truth
+
+
 @dataclass
 class Ev:
     kind: str
@@ -223,10 +316,11 @@ class Path:
         return [(e.text, e.truth) for e in self.events if e.kind == 'cond']
 
     def holds(self, text):
-        """Truth value assumed for condition ``text`` on this path (None if unconstrained)."""
+        """Truth value assumed for condition ``text`` (any equivalent spelling) on this path (None if unconstrained)."""
         for e in self.events:
-            if e.kind == 'cond' and e.text == text:
-                return e.truth
+            v = cond_is(e, text)
+            if v is not None:
+                return v
         return None
 
 
@@ -296,19 +390,32 @@ class PathEnumerator:
             return
         events = self.ex.expr_events(test)
         assumptions = self._invalidate(assumptions, events)
-        text = src(test)
         if isinstance(test, ast.Constant):
             yield events, assumptions, bool(test.value)
             return
+        # the event records the canonical spelling of the test (norm_test) and the truth of THAT spelling;
+        # the branch outcome is the truth of the test as written
+        text, flip = norm_test(test)
+        if text != src(test):
+            # keep node, text and truth in agreement: the event's node is the canonical test
+            try:
+                cnode = ast.parse(text, mode='eval').body
+                for x in ast.walk(cnode):
+                    ast.copy_location(x, test)
+                test_node = cnode
+            except SyntaxError:
+                test_node, text, flip = test, src(test), False
+        else:
+            test_node = test
         if text in assumptions:
-            truth = assumptions[text][0]
-            yield events + [Ev('cond', test.lineno, test, text=text, truth=truth)], assumptions, truth
+            ctruth = assumptions[text][0]
+            yield events + [Ev('cond', test.lineno, test_node, text=text, truth=ctruth)], assumptions, ctruth != flip
             return
         names = self._names_in(test)
         for truth in (True, False):
             a = dict(assumptions)
-            a[text] = (truth, names)
-            yield events + [Ev('cond', test.lineno, test, text=text, truth=truth)], a, truth
+            a[text] = (truth != flip, names)
+            yield events + [Ev('cond', test.lineno, test_node, text=text, truth=truth != flip)], a, truth
 
     def _block(self, stmts, prefix, assumptions):
         """Yield (events, assumptions, outcome) for every path through stmts."""
